@@ -96,6 +96,12 @@ type c04File struct {
 	Rel     string
 	Text    string
 	LineCls map[int]string // 0-based line -> prefix class of the statement on it
+	Anno    []c04AnnoSite  // type names inside annotation comments (not tokens of the program)
+}
+
+type c04AnnoSite struct {
+	Line, Col int
+	Name      string
 }
 
 // c04GenFile builds a file of one-line statements, each preceded by a prefix of a random class.
@@ -151,6 +157,33 @@ func c04GenFile(r *Rng, idx int, le string, nfiles int) c04File {
 		emit(nx(), fmt.Sprintf("function %sTab.%sadded(%sq2) return %sq2 end", o, pre, pre, pre))
 		emit(nx(), fmt.Sprintf("print(%sTab.%sadded(1))", o, pre))
 	}
+	// annotation types: an alias and a class declared here, used here and in the next file (go-to-definition on a type
+	// name inside an annotation comment answers with a location like any other)
+	var anno []c04AnnoSite
+	raw := func(txt string, names ...string) {
+		for _, nmm := range names {
+			anno = append(anno, c04AnnoSite{line, strings.LastIndex(txt, nmm), nmm})
+		}
+		sb.WriteString(txt)
+		sb.WriteString(le)
+		line++
+	}
+	raw(fmt.Sprintf("---@alias %sAliasT number", pre))
+	raw(fmt.Sprintf("---@class %sCls", pre))
+	raw(fmt.Sprintf("---@field %sfld %sAliasT", pre, pre), pre+"AliasT")
+	raw(fmt.Sprintf("local %sClsTab = {}", pre))
+	raw(fmt.Sprintf("---@type %sCls", pre), pre+"Cls")
+	raw(fmt.Sprintf("local %sobj = %sClsTab", pre, pre))
+	raw(fmt.Sprintf("print(%sobj)", pre))
+	if nfiles > 1 {
+		o := fmt.Sprintf("f%d", (idx+1)%nfiles)
+		raw(fmt.Sprintf("---@type %sAliasT", o), o+"AliasT")
+		raw(fmt.Sprintf("local %styped = 1", pre))
+		raw(fmt.Sprintf("---@param %sarg1 %sCls", pre, o), o+"Cls")
+		raw(fmt.Sprintf("---@return %sAliasT", o), o+"AliasT")
+		raw(fmt.Sprintf("local function %sannotated(%sarg1) return %styped end", pre, pre, pre))
+		raw(fmt.Sprintf("print(%sannotated(nil))", pre))
+	}
 	// Lua 5.4 attributes on the first and on later names of a declaration list
 	emit(nx(), fmt.Sprintf("local %sca <const>, %scb <const>, %scc, %scd<close> = 1, 2, 3, nil", pre, pre, pre, pre))
 	emit(nx(), fmt.Sprintf("print(%sca, %scb, %scc, %scd)", pre, pre, pre, pre))
@@ -161,7 +194,7 @@ func c04GenFile(r *Rng, idx int, le string, nfiles int) c04File {
 		// a near-valid tail: one syntax error at the end of the file
 		sb.WriteString("local " + pre + "broken = (" + le)
 	}
-	return c04File{Rel: fmt.Sprintf("c%d.lua", idx), Text: sb.String(), LineCls: cls}
+	return c04File{Rel: fmt.Sprintf("c%d.lua", idx), Text: sb.String(), LineCls: cls, Anno: anno}
 }
 
 var identRe = regexp.MustCompile(`^[A-Za-z_][A-Za-z0-9_]*$`)
@@ -346,6 +379,19 @@ func c04Check(c *Ctx, files []c04File, fm map[string]string, le, tag string) {
 					for _, e := range es {
 						checkRange("rename-edit", ws.Rel(u), e.Range, t.Val, ctx)
 					}
+				}
+			}
+		}
+		for _, as := range f.Anno {
+			for _, col := range []int{as.Col, as.Col + len(as.Name)} {
+				locs, _, err := srv.Definition(uri, as.Line, col)
+				if err != nil {
+					fail()
+					return
+				}
+				c.Count("annotation_type_definition_queries", 1)
+				for _, l := range locs {
+					checkRange("definition-of-annotation-type", ws.Rel(l.URI), l.Range, as.Name, fmt.Sprintf("query on annotation type %s at %d:%d", as.Name, as.Line, col))
 				}
 			}
 		}
